@@ -1067,6 +1067,13 @@ class MutableFileVersion:
         offset. I return a Deferred that fires when this has been
         completed.
         """
+        # An earlier publish through this object (update, overwrite or
+        # modify) has recorded the version it wrote in our servermap;
+        # that version, not the one we were created for, is what is on
+        # the grid now and what this update must be applied to.
+        best = self._servermap.best_recoverable_version()
+        if best is not None and best != self._version:
+            self._version = best
         new_size = data.get_size() + offset
         old_size = self.get_size()
         segment_size = self._version[3]
